@@ -85,6 +85,8 @@ def build(d):
         return CLASSES[d[1]](**{n: build(v) for n, v in d[2]})
     if k == "ddict":
         return P.defaultdict(CLASSES[d[1]], {build(a): build(b) for a, b in d[2]})
+    if k == "mylist":
+        return P.MyList(build(x) for x in d[1])
     if k == "raw":
         return eval(d[1], dict(vars(P)))
     if k == "opaque":
@@ -142,6 +144,8 @@ def render(d) -> str:
                 + ", ".join(f"({render(a)}, {render(b)})" for a, b in d[2]) + "]))")
     if k == "raw":
         return d[1]
+    if k == "mylist":
+        return "MyList([" + ", ".join(render(x) for x in d[1]) + "])"
     if k == "opaque":
         return f"Opaque({d[1]!r})"
     if k == "vec":
@@ -193,6 +197,8 @@ def natural(d) -> str:
         return f"defaultdict({d[1]}, {{" + ", ".join(f"{natural(a)}: {natural(b)}" for a, b in d[2]) + "})"
     if k == "raw":
         return d[1]
+    if k == "mylist":
+        return "MyList([" + ", ".join(natural(x) for x in d[1]) + "])"
     if k == "opaque":
         return f"Opaque({d[1]!r})"
     if k == "vec":
@@ -208,7 +214,7 @@ def natural(d) -> str:
 def walk(d):
     yield d
     k = d[0]
-    if k in ("list", "tuple", "set", "frozenset", "vec"):
+    if k in ("list", "tuple", "set", "frozenset", "vec", "mylist"):
         for x in d[1]:
             yield from walk(x)
     elif k == "dict":
@@ -230,7 +236,7 @@ def walk(d):
 def depth(d):
     k = d[0]
     subs = []
-    if k in ("list", "tuple", "set", "frozenset", "vec"):
+    if k in ("list", "tuple", "set", "frozenset", "vec", "mylist"):
         subs = d[1]
     elif k == "dict":
         subs = [x for ab in d[1] for x in ab]
